@@ -48,9 +48,16 @@ class Transport:
             _LOGGER.debug("Sending %s", message.strip())
         try:
             transport.write(message.encode())
-        except OSError as exc:
+        except (OSError, TypeError) as exc:
+            # pyserial raises TypeError if the port is closed during the write.
             _LOGGER.error("Failed writing to transport %s: %s", transport, exc)
-            transport.close()
+            try:
+                transport.close()
+            except Exception as close_exc:  # pylint: disable=broad-except
+                # The reader thread may already have closed the port.
+                _LOGGER.debug(
+                    "Failed closing transport %s: %s", transport, close_exc
+                )
             protocol.conn_lost_callback()
 
 
